@@ -13,6 +13,7 @@ mod fam_engine;
 mod fam_ref;
 mod fam_pgn;
 mod fam_lichess;
+mod fam_uci;
 mod gen;
 include!("families.rs");
 
